@@ -228,6 +228,86 @@ def h_adaptive(ctx, il, n0, lm, bound, passes=MAX_PASSES, pool=False):
     _check_results(ctx, stats, reg, df, notional, rp, {"il": il, "n0": n0, "lm": lm, "passes": len(crit.ns_calls)}, added, kurtosis=(bound <= 1 or n0 + bound <= 2))
 
 
+def _scripted_controls(kx, nx, px):
+    import rpylib.product.payoff as PAY
+    from .mlmc_common import ScriptedControlUnderlying, PROD
+
+    control = PROD.Product(payoff_underlying=ScriptedControlUnderlying(), payoff=PAY.Forward(strike=kx), maturity=1.0, notional=nx)
+    return PROD.ControlVariates(products=[control], prices=[px])
+
+
+def replay_run_with_controls(sc):
+    """the real multilevel engine with one control variate (a forward on the product's own underlying) on the scenario's sample-size answers:
+    the raw view (no_control_variates=True) of price and level means must be the plain level means of the simulated samples"""
+    ctxc = ConcreteCtx({k: int(v) for k, v in sc["ns"].items()}, {k: bool(v) for k, v in sc["conv"].items()})
+    reg = Registry(ctxc)
+    crit = ScriptedCriteria(ctxc, sc["bound"], offset=sc.get("offset", 0))
+    crit.max_calls = MAX_PASSES + 2
+    cc = CR.ConvergenceCriteria(criteria=crit.criteria, compute_mc_paths=_limited(crit))
+    cfg = CFG.ConfigurationMultiLevel(convergence_rates=CFG.ConvergenceRates(alpha=1.0, beta=1.0, gamma=1.0), convergence_criteria=cc,
+                                      initial_level=sc["initial_level"], maximum_level=sc["level_max"], initial_mc_paths=sc["n0"], nb_of_processes=1,
+                                      control_variates=_scripted_controls(0.3, 1.5, 0.2))
+    cfg.initialisation_seed = lambda multiprocessing=False: None
+    eng = ME.Engine(cfg, ScriptedCoupling(reg, 0.9))
+    try:
+        stats = eng.price(ScriptedProduct(2.0), 0.1)
+    except PathAbort:
+        return False, "bounded number of passes exceeded in the replay"
+    want, details = 0.0, []
+    for l in range(len(stats.mc_statistics)):
+        S = reg.samples.get(l, [])
+        if S:
+            want += sum(0.9 * 2.0 * (f - c) for f, c in S) / len(S)
+    got = float(np.ravel(stats.price(no_control_variates=True))[0])
+    if abs(got - want) > 1e-9 * max(1.0, abs(want)):
+        details.append(f"raw price (no_control_variates=True) {got!r} vs sum of the level means of the simulated samples {want!r}")
+    return bool(details), f"initial_level={sc['initial_level']} N0={sc['n0']} level_max={sc['level_max']} answers={sc['ns']} {sc['conv']}, one control variate: " + "; ".join(details)
+
+
+def h_adaptive_cv(ctx, il, n0, lm, bound, passes=3):
+    """adaptive run with one control variate (a forward on the product's own underlying; the covariance matrices the regression uses are
+    replaced by fresh symbols through a hook on np.cov): the raw samples of every level are left alone by the adjustment - the raw view of the
+    price is the sum of the plain level means over the simulated samples, whatever the passes were"""
+    from .mlmc_common import PROD
+
+    kx, nx, px = ctx.real("kx"), ctx.real("notional_x"), ctx.real("price_x")
+    cv = _scripted_controls(kx, nx, px)
+    eng, prod, reg, crit, df, notional = make_engine(ctx, il, n0, lm, bound, control_variates=cv)
+    crit.max_calls = passes
+    eng.configuration.convergence_criteria.compute_mc_paths = _limited(crit)
+    rmse = ctx.real("rmse")
+    ctx.assume(rmse > 0)
+    npx = PROD.np
+    k = [0]
+
+    def cov_hook(m, y=None, rowvar=True, bias=False, ddof=None, **kw):
+        if V.get_context() is None:
+            return np.cov(m, y=y, rowvar=rowvar, bias=bias, ddof=ddof, **kw)
+        S = np.empty((2, 2), dtype=object)
+        k[0] += 1
+        S[0, 0], S[1, 1] = ctx.real(f"sxx{k[0]}"), ctx.real(f"syy{k[0]}", 0)
+        S[0, 1] = S[1, 0] = ctx.real(f"sxy{k[0]}")
+        ctx.assume(S[0, 0] > Fraction(1, 10**6))
+        return S
+
+    npx.cov = cov_hook
+    try:
+        try:
+            stats = eng.price(prod, rmse)
+        except ZeroDivisionError:
+            raise PathAbort()
+    finally:
+        del npx.cov
+    rp = (replay_run_with_controls, _scenario(ctx, crit, il, n0, lm, bound))
+    info = {"il": il, "n0": n0, "lm": lm, "passes": len(crit.ns_calls), "control_variates": 1}
+    total = 0
+    for l in range(len(stats.mc_statistics)):
+        S, ys, fs = _level_terms(reg, l, df, notional)
+        if S:
+            total = total + sum(ys) / len(S)
+    ctx.prove("C05.raw_price_is_sum_of_level_means_when_controls_are_on", EQ(stats.price(no_control_variates=True), total), info=info, replay=rp)
+
+
 def replay_fixed_crash(sc):
     try:
         ok, detail = replay_run(sc)
@@ -337,6 +417,8 @@ def harnesses(tier):
         hs.append(Harness(f"adaptive.L{il}.N{n0}.M{lm}.B{b}.P{ps}", h_adaptive, {"il": il, "n0": n0, "lm": lm, "bound": b, "passes": ps}, max_paths=120000 if not q else 6000, batch=10))
     for il, n0, lm, b, ps in ([(0, 1, 1, 2, 3)] if q else [(0, 1, 1, 2, 4), (1, 1, 1, 2, 4), (0, 2, 1, 2, 3)]):
         hs.append(Harness(f"adaptive.pool.L{il}.N{n0}.M{lm}.B{b}.P{ps}", h_adaptive, {"il": il, "n0": n0, "lm": lm, "bound": b, "passes": ps, "pool": True}, max_paths=120000 if not q else 6000, batch=10))
+    for il, n0, lm, b in ([(0, 1, 0, 2)] if q else [(0, 1, 0, 2), (1, 1, 1, 2), (0, 2, 1, 2)]):
+        hs.append(Harness(f"adaptive.controls.L{il}.N{n0}.M{lm}.B{b}", h_adaptive_cv, {"il": il, "n0": n0, "lm": lm, "bound": b}, max_paths=6000, batch=10))
     for il, n0, lm in ([(0, 2, 1), (1, 1, 2), (2, 2, 1), (0, 1, 2), (1, 2, 4)] if q else [(0, 2, 1), (1, 1, 2), (2, 2, 1), (0, 1, 2), (1, 2, 4), (0, 3, 3), (2, 1, 0), (3, 2, 2), (0, 2, 5)]):
         hs.append(Harness(f"fixed.L{il}.N{n0}.M{lm}", h_fixed, {"il": il, "n0": n0, "lm": lm}, max_paths=2000))
     for il, n0, b in ([(0, 100, 1)] if q else [(0, 100, 2), (1, 100, 2), (0, 200, 3)]):
@@ -347,7 +429,8 @@ def harnesses(tier):
 
 
 EXPECT = ["C05.level_kurtosis_from_the_simulated_samples", "C05.price_is_sum_of_level_means_over_simulated_samples", "C05.reported_Nl_is_number_of_simulated_samples", "C05.level_mean_ml",
-          "C05.level_variance_vl", "C05.mean_level_l", "C05.cost_per_sample_cl", "C05.coarse_payoff_is_zero_at_level_0"]
+          "C05.level_variance_vl", "C05.mean_level_l", "C05.cost_per_sample_cl", "C05.coarse_payoff_is_zero_at_level_0",
+          "C05.raw_price_is_sum_of_level_means_when_controls_are_on"]
 
 
 def main(tier):
